@@ -37,7 +37,13 @@ func c18Client(et int32) (*client.Client, error) {
 	add := func(sname []string) error {
 		sn := types.PrincipalName{NameType: 2, NameString: sname}
 		fl := types.NewKrbFlags()
-		tkt, key, err := messages.NewTicket(cname, realm, sn, realm, fl, kt, et, 1, now.Add(-time.Minute), now.Add(-time.Minute), now.Add(8*time.Hour), now.Add(24*time.Hour))
+		// the second host's service lives in another realm than the user (a ticket obtained through a cross-realm
+		// trust: the realm in the ticket's header is the service's, the client's realm is inside the sealed part)
+		srealm := realm
+		if sname[1] == c18Hosts[1] {
+			srealm = "OTHER.REALM"
+		}
+		tkt, key, err := messages.NewTicket(cname, realm, sn, srealm, fl, kt, et, 1, now.Add(-time.Minute), now.Add(-time.Minute), now.Add(8*time.Hour), now.Add(24*time.Hour))
 		if err != nil {
 			return err
 		}
@@ -47,7 +53,7 @@ func c18Client(et int32) (*client.Client, error) {
 		}
 		cr := new(credentials.Credential)
 		cr.Client.Realm, cr.Client.PrincipalName = realm, cname
-		cr.Server.Realm, cr.Server.PrincipalName = realm, sn
+		cr.Server.Realm, cr.Server.PrincipalName = srealm, sn
 		cr.Key = key
 		cr.AuthTime, cr.StartTime, cr.EndTime, cr.RenewTill = now.Add(-time.Minute), now.Add(-time.Minute), now.Add(8*time.Hour), now.Add(24*time.Hour)
 		cr.TicketFlags = fl
